@@ -6,6 +6,7 @@ import (
 	"crypto/sha256"
 	"encoding/json"
 	"fmt"
+	"net/url"
 	"os"
 	"os/exec"
 	"reflect"
@@ -198,10 +199,18 @@ var MapRichDocs = []string{
 	`{"$schema":"https://json-schema.org/draft/2020-12/schema","$vocabulary":{"https://json-schema.org/draft/2020-12/vocab/core":true,"https://json-schema.org/draft/2020-12/vocab/applicator":true,"https://x/y":false},"properties":{"b":{"uniqueItems":true},"a":{"enum":[{"b":1,"a":2},{"a":2,"b":1}]}}}`,
 	`{"uniqueItems":true,"items":{"properties":{"b":{"type":"integer"},"a":{"type":"integer"}},"unevaluatedProperties":false,"anyOf":[{"properties":{"c":true}},{"properties":{"d":true}}]}}`,
 	`{"type":"object","properties":{"p":{"default":{"b":1,"a":2},"properties":{"a":{"default":1},"b":{"default":2},"c":{"default":{"z":1,"y":2}}}},"q":{"default":[3,1,2]}}}`,
+	// annotations collected across several dependentSchemas / patternProperties entries, then read by unevaluatedProperties
+	`{"dependentSchemas":{"a":{"properties":{"c":true}},"b":{"properties":{"ab":true}},"c":{"patternProperties":{"^q":true}}},"patternProperties":{"^a$":true,"^b$":{"type":["integer","string"]}},"unevaluatedProperties":false}`,
+	// a schema-valued additionalProperties, propertyNames and patternProperties over multi-key instances with passing and failing keys
+	`{"additionalProperties":{"type":"integer"},"propertyNames":{"maxLength":2,"pattern":"^[a-q]"},"patternProperties":{"^a":{"type":["string","integer"]},"b$":{"minimum":1}},"properties":{"c":{"type":"array"}}}`,
+	// defaults only below properties that have none themselves (containers are created on the way), several per level
+	`{"properties":{"r":{"properties":{"b":{"default":2},"a":{"default":1},"c":{"properties":{"z":{"default":[1]},"y":{"default":{"k":1}}}}}},"s":{"properties":{"a":{"properties":{"a":{"default":null}}}},"required":["zz"]},"t":{"properties":{"q":{"default":1}},"required":["q"]}}}`,
+	// unevaluatedItems after contains / prefixItems in several in-place branches
+	`{"anyOf":[{"prefixItems":[true]},{"contains":{"const":9}},{"contains":{"const":2}}],"oneOf":[{"minItems":0},{"maxItems":0}],"unevaluatedItems":{"type":"integer","maximum":5}}`,
 }
 
 // InstanceTexts for C14 (each also in two non-canonical representations).
-var InstanceTexts = []string{`[9,1]`, `[1,9]`, `{"p":9,"q":1}`, `{"q":2,"p":9}`, `[2,2]`, `{"a":"ab","b":1,"c":[1,2]}`, `{"c":1,"a":"x"}`, `[{"b":1,"a":2},{"a":2,"b":1}]`, `[{"a":1,"c":2},{"b":1,"d":2}]`, `1`, `"a"`, `{"b":"s","a":1,"ab":2}`, `[3,1,2]`, `{"p":{},"q":[9]}`, `null`}
+var InstanceTexts = []string{`{"a":1,"b":1,"c":1,"ab":1}`, `{"a":1,"b":"s","q1":1,"zz":1}`, `[2,9,7]`, `[9,1]`, `[1,9]`, `{"p":9,"q":1}`, `{"q":2,"p":9}`, `[2,2]`, `{"a":"ab","b":1,"c":[1,2]}`, `{"c":1,"a":"x"}`, `[{"b":1,"a":2},{"a":2,"b":1}]`, `[{"a":1,"c":2},{"b":1,"d":2}]`, `1`, `"a"`, `{"b":"s","a":1,"ab":2}`, `[3,1,2]`, `{"p":{},"q":[9]}`, `null`}
 
 type result struct {
 	marshal string
@@ -236,7 +245,7 @@ func Run(r *ev.Run) {
 		depth = 4
 	}
 	r.Rule(fmt.Sprintf("subjects: every %d-th document of G-schema/2020 and G-schema/07 as unmarshalled Go values, map-rich documents (2-3 entries at every map-ranging site, unsorted lists), G-goschema trees and a Go literal. For each subject: the initial-state result of every operation {Marshal, CloneSchemas+Marshal, Resolve, Resolve(ValidateDefaults), Validate(i) for each of %d instances (10 values, each also in two non-canonical representations) on the oldest and on the newest Resolved}; then EVERY sequence of <=%d operations on one Schema value: each operation's result must equal its initial-state result, the deep snapshot (pointer graph, exported fields, map and slice contents) of the Schema tree must never change, and the instance snapshot must be unchanged by Validate. states = distinct (subject, snapshot, result) states reached (must be 1 per subject), transitions = operations executed. Finally the digest of the whole result table is recomputed in 3 fresh processes (fresh map seeds, fresh hash seeds) and must be identical. Non-trivial = every operation sequence", stride(thorough), len(insts), depth))
-	r.Assume("error texts are not compared (they may name whichever failing keyword is met first)", "loader-supplied documents are not part of the Schema tree given to Resolve", "map-iteration orders and hash seeds are owned and enumerated in the instrumented build (C14 env part); the fresh-process digests are a confirmation on the uninstrumented binary")
+	r.Assume("error texts are not compared (they may name whichever failing keyword is met first)", "documents handed out by a Loader are inputs as well: every sequence of <=3 (4) Resolve calls of six roots (both drafts, two bases) through one caching loader must reproduce the fresh-loader results and leave the cached documents unchanged", "map-iteration orders and hash seeds are owned and enumerated in the instrumented build (C14 env part); the fresh-process digests are a confirmation on the uninstrumented binary")
 	r.Set("subjects", len(subs))
 	var states, transitions atomic.Int64
 	table := make([]string, len(subs))
@@ -396,6 +405,8 @@ func Run(r *ev.Run) {
 			r.Sample(map[string]any{"subject": sub.desc, "initial": map[string]string{"marshal": init.marshal, "resolve": init.resolve, "resolve_validate_defaults": init.rvd, "verdicts": init.verdict}})
 		}
 	})
+	lt := loaderHistories(r, thorough)
+	transitions.Add(int64(lt))
 	r.Set("states", states.Load())
 	r.Set("transitions", transitions.Load())
 	r.Set("traces_validated_against_impl", transitions.Load())
@@ -425,6 +436,127 @@ func Run(r *ev.Run) {
 	if r.OnlyKey == "" || true {
 		envrun.Explore(r, "ENV", "c14env", "env", 16)
 	}
+}
+
+// loaderHistories: documents handed out by a caching Loader (the same *Schema for every request,
+// as any caching loader does) are inputs too. Every sequence of Resolve calls of roots of
+// different drafts and BaseURIs through ONE such loader must give each call the result it
+// gives with a fresh loader, and must leave the cached documents unchanged.
+func loaderHistories(r *ev.Run, thorough bool) int {
+	docs := map[string]string{
+		"http://h/d.json":  `{"dependencies":{"a":["b"]},"items":[{"type":"string"}],"additionalItems":false,"properties":{"n":{"$ref":"e.json"}},"definitions":{"k":{"type":"integer"}}}`,
+		"http://h/f.json":  `{"definitions":{"k":{"$id":"#k","type":"integer"}},"properties":{"a":{"$ref":"#/definitions/k"}}}`, // a fragment-only $id: an anchor in draft-07, an error in 2020-12
+		"http://h/e.json":  `{"$id":"http://h/e.json","dependentRequired":{"a":["c"]},"prefixItems":[{"type":"integer"}],"$defs":{"k":{"type":"integer"}}}`,
+		"http://h2/d.json": `{"type":"object"}`,
+	}
+	type root struct{ name, text, base string }
+	roots := []root{
+		{"draft-07 root", `{"$schema":"http://json-schema.org/draft-07/schema#","allOf":[{"$ref":"d.json"}]}`, "http://h/root.json"},
+		{"2020-12 root", `{"$ref":"d.json"}`, "http://h/root.json"},
+		{"2020-12 root, declared", `{"$schema":"https://json-schema.org/draft/2020-12/schema","properties":{"x":{"$ref":"http://h/d.json"}},"$ref":"e.json"}`, "http://h/root.json"},
+		{"draft-07 root using f.json#k", `{"$schema":"http://json-schema.org/draft-07/schema#","properties":{"z":{"$ref":"f.json#k"}}}`, "http://h/root.json"},
+		{"2020-12 root (declared) using f.json", `{"$schema":"https://json-schema.org/draft/2020-12/schema","properties":{"z":{"$ref":"f.json"}}}`, "http://h/root.json"},
+		{"draft-07 root, other base", `{"$schema":"http://json-schema.org/draft-07/schema#","properties":{"x":{"$ref":"http://h/e.json"},"y":{"$ref":"d.json"}}}`, "http://h2/root.json"},
+	}
+	instTexts := []string{`{"z":1}`, `{"z":"s"}`, `{"z":{"a":"s"}}`, `{"a":1}`, `{"a":1,"b":1}`, `{"a":1,"c":1}`, `["s",1]`, `[1]`, `["s"]`, `{"n":{"a":1}}`, `{"x":{"a":1},"y":["s",2]}`, `{"x":[1,"s"],"a":1}`, `1`}
+	var insts []any
+	for _, t := range instTexts {
+		insts = append(insts, ref.MustParse(t).Plain())
+	}
+	newLoader := func() (func(*url.URL) (*jsonschema.Schema, error), map[string]*jsonschema.Schema, map[string]string) {
+		cache := map[string]*jsonschema.Schema{}
+		snap0 := map[string]string{} // snapshot of each document as first handed out
+		return func(u *url.URL) (*jsonschema.Schema, error) {
+			k := u.String()
+			if s, ok := cache[k]; ok {
+				return s, nil
+			}
+			t, ok := docs[k]
+			if !ok {
+				return nil, fmt.Errorf("no document %s", k)
+			}
+			var s jsonschema.Schema
+			if err := json.Unmarshal([]byte(t), &s); err != nil {
+				return nil, err
+			}
+			cache[k] = &s
+			snap0[k] = Snapshot(&s)
+			return &s, nil
+		}, cache, snap0
+	}
+	op := func(ro root, load func(*url.URL) (*jsonschema.Schema, error)) string {
+		var s jsonschema.Schema
+		if err := json.Unmarshal([]byte(ro.text), &s); err != nil {
+			return "unmarshal error"
+		}
+		rs, err := s.Resolve(&jsonschema.ResolveOptions{BaseURI: ro.base, Loader: load})
+		if err != nil {
+			return "resolve error"
+		}
+		var b strings.Builder
+		for _, in := range insts {
+			if rs.Validate(in) == nil {
+				b.WriteByte('1')
+			} else {
+				b.WriteByte('0')
+			}
+		}
+		return b.String()
+	}
+	initial := make([]string, len(roots))
+	for i, ro := range roots {
+		l, _, _ := newLoader()
+		initial[i] = op(ro, l)
+	}
+	depth := 3
+	if thorough {
+		depth = 4
+	}
+	n := 0
+	var seq []int
+	var rec func()
+	rec = func() {
+		if len(seq) > 0 {
+			load, cache, pristine := newLoader()
+			names := make([]string, len(seq))
+			for i, k := range seq {
+				names[i] = roots[k].name
+			}
+			key := "loader history " + strings.Join(names, " ; ")
+			if r.OnlyKey == "" || r.OnlyKey == key {
+				for step, k := range seq {
+					got := op(roots[k], load)
+					n++
+					if got != initial[k] {
+						r.Fail(key+" [verdicts]", map[string]any{"class": "Resolve through a caching loader depends on earlier Resolve calls", "step": step, "root": roots[k].text, "verdicts_with_fresh_loader": initial[k], "verdicts_in_this_history": got, "instances": instTexts})
+						break
+					}
+					changed := false
+					for u, d := range cache {
+						if Snapshot(d) != pristine[u] {
+							r.Fail(key+" [document]", map[string]any{"class": "a document handed out by the Loader was modified", "step": step, "document": u, "diff": firstDiff(pristine[u], Snapshot(d))})
+							changed = true
+						}
+					}
+					_ = changed
+				}
+				r.Eval(1)
+				r.NontrivialN(1)
+			}
+		}
+		if len(seq) == depth {
+			return
+		}
+		for k := range roots {
+			seq = append(seq, k)
+			rec()
+			seq = seq[:len(seq)-1]
+		}
+	}
+	rec()
+	r.Set("loader_history_sequences_depth", depth)
+	r.Set("loader_history_initial_results", initial)
+	return n
 }
 
 // digestMode recomputes the initial-state result table and prints its digest.
